@@ -792,6 +792,86 @@ def run_xml(ctx):
 
 
 # ------------------------------------------------------------------------------------------------
+# (1e) regex pipeline (public API; no shipped codemod uses it): Model.Report.regex_file / regex_aborts
+# ------------------------------------------------------------------------------------------------
+def run_regex(ctx):
+    import re as _re
+    from codemodder.codemods.regex_transformer import RegexTransformerPipeline
+    from codemodder.codetf import Finding, Rule
+    from codemodder.diff import create_diff
+    from codemodder.file_context import FileContext
+    from codemodder.result import LineInfo, Location, Result
+
+    class Loc(Location):
+        pass
+
+    class Res(Result):
+        pass
+
+    d = ctx.scratch / "regex"
+    d.mkdir(exist_ok=True)
+    texts = {"match.txt": b"keep\nsecret=1\nkeep\nsecret=2\n", "nomatch.txt": b"keep\nkeep\n", "one.txt": b"secret=3",
+             "undecodable.txt": b"secret=\xe9\xff\n", "\u00fcn\u00ef.txt": "secret=\u00e9\n".encode()}
+    cases, ctx_cases, metas = [], [], []
+    for cd in ["Masked a secret", ""]:
+        for name, data in texts.items():
+            for with_findings in (False, True):
+                f = d / name
+                f.write_bytes(data)
+                fnds = [("r-x", "orig", None, 2), ("r-y", "orig y", "https://o", 4)] if with_findings else []
+                results = [Res(rule_id=r, locations=[Loc(file=Path(name), start=LineInfo(l, 1), end=LineInfo(l, 2))],
+                               finding=Finding(id=r, rule=Rule(id=r, name=n, url=u))) for r, n, u, l in fnds] if with_findings else None
+                fc = FileContext(d, f, [], [], results)
+                pipe = RegexTransformerPipeline(_re.compile(r"secret=\w+"), "secret=***", cd)
+                raised, cs = False, None
+                try:
+                    cs = pipe.apply(types.SimpleNamespace(directory=d, dry_run=True), fc, results)
+                except Exception as e:
+                    raised = type(e).__name__
+                # the model's inputs
+                try:
+                    lines = data.decode("utf-8").splitlines(keepends=True)
+                    ok = True
+                except UnicodeDecodeError:
+                    lines, ok = [], False
+                new = [_re.sub(r"secret=\w+", "secret=***", l) for l in lines]
+                changed = [i + 1 for i, (a, b) in enumerate(zip(lines, new)) if a != b]
+
+                def fterm(x):
+                    return c_finding({"id": x[0], "rule": {"id": x[0], "name": x[1], "url": x[2]}})
+                reqs = ["{| rq_line := %s; rq_desc := %s; rq_findings := %s |}" % (cZ(l), cstr(""), clist([fterm(x) for x in fnds if x[3] == l], "finding"))
+                        for l in changed]
+                diff = create_diff(lines, new) if ok else ""
+                fr = ("{| fr_path := %s; fr_has_results := %s; fr_findings := %s; fr_parse_ok := %s; fr_reported := []; fr_deps := []; "
+                      "fr_raw := (TDone %s %s) |}" % (cstr(name), cbool(with_findings), clist([fterm(x) for x in fnds], "finding"), cbool(ok),
+                                                      clist(reqs, "change_req"), cstr(diff)))
+                obs_cs = None if cs is None else json.loads(cs.model_dump_json(exclude_none=True))
+                cases.append(cpair(cstr(cd), fr, cbool(bool(raised)), copt(None if obs_cs is None else cjson(obs_cs), "json")))
+                unf = [json.loads(u.model_dump_json(exclude_none=True)) for u in fc.unfixed_findings]
+                ctx_cases.append(cpair(cstr(cd), fr, cbool(bool(fc.failures)), clist([cjson(u) for u in unf], "json")))
+                meta = {"op": "regex", "file": name, "change_description": cd, "with_findings": with_findings, "raised": raised,
+                        "changeset": obs_cs, "failures": [str(x) for x in fc.failures], "unfixed": unf}
+                metas.append(meta)
+                ctx.count("regex:" + ("raised" if raised else "changeset" if cs else "failed" if fc.failures else "none"))
+                ctx.case(meta, nontrivial_key=("regex", name, cd, with_findings) if (cs or fc.failures or raised) else None)
+                # spec: what the pipeline hands to the report is well formed
+                if cs is not None:
+                    probs = chk.check_report({"run": {"vendor": "v", "tool": "t", "version": "1", "commandLine": "c", "elapsed": 1, "directory": str(d), "sarifs": []},
+                                              "results": [{"codemod": "regex", "summary": "", "description": "", "references": [], "changeset": [obs_cs],
+                                                           "failedFiles": [str(x) for x in fc.failures]}]}, d, None, before={name: data}, codemod_info={})
+                    for p_ in probs:
+                        ctx.violation(p_.split(":", 1)[0], "regex pipeline: " + p_, dict(meta, expected="a well-formed changeset"))
+    bad = core.eval_bad_indices(ctx, "c15_regex", IMPORTS, "regex_case", cases, ["regex_model_ok"])
+    for i in bad["regex_model_ok"]:
+        ctx.mismatch("RegexTransformerPipeline.apply vs Model.Report.regex_file/regex_aborts", f"differs on {metas[i]['file']} "
+                     f"(change_description={metas[i]['change_description']!r}, raised={metas[i]['raised']})", metas[i])
+    bad = core.eval_bad_indices(ctx, "c15_regex_ctx", IMPORTS, "regex_ctx_case", ctx_cases, ["regex_ctx_model_ok"])
+    for i in bad["regex_ctx_model_ok"]:
+        if not metas[i]["raised"]:
+            ctx.mismatch("RegexTransformerPipeline.apply (FileContext) vs Model.Report.regex_file", f"failures/unfixed findings differ on {metas[i]['file']}", metas[i])
+
+
+# ------------------------------------------------------------------------------------------------
 # (2) end-to-end
 # ------------------------------------------------------------------------------------------------
 SNIPPETS = {
@@ -847,14 +927,14 @@ def manifest_variants():
 
 
 def manifest_scenarios(ctx):
-    """(kind, variant, text, dependency-adding codemod, dry-run?) — quick: two random variants per kind (the whole family is swept
+    """(kind, variant, text, dependency-adding codemod, dry-run?) — quick: one random variant per kind (the whole family is swept
     in-process by run_synthetic on every run); thorough: every variant twice (second codemod, dry-run flipped)."""
     rng = ctx.rng
     cms = sorted(DEP_SOURCES)
     out, k = [], rng.randrange(len(cms))
     for kind, variants in sorted(manifest_variants().items()):
         if ctx.quick():
-            variants = rng.sample(variants, 2)
+            variants = rng.sample(variants, 1)
         for vname, text in variants:
             k += 1
             out.append((kind, vname, text, cms[k % len(cms)], rng.random() < 0.34))
@@ -1092,6 +1172,20 @@ def check_tables(ctx):
             names.append("".join(chr(int(x)) for x in re.findall(r"\d+", m.group(1))))
         ctx.tie_broken.append("table: the classes of codetf.py differ from the records of Model/Report.v (Spec/ReportModelsTable.v): "
                               + (", ".join(names) or "see coq/Generated/Tables.v report_codetf_models"))
+    # Properties/C15_positive.v: the positive branches are the active ones and the laws hold at the extracted tables
+    if not core.vo_ok("Properties/C15_positive.v"):
+        ctx.tie_broken.append("proof: Properties/C15_positive.v no longer checks: the extracted tables are not the guarded ones "
+                              "(strict the_validators / good_pipe the_tables) — a negative branch of C15 is active")
+    else:
+        rc2, out2 = core.coqc_scratch(ctx, "c15_positive", "From CM Require Import Properties.C15_positive.\n"
+                                      "Print Assumptions C15_tables_positive.\nPrint Assumptions C15_here.\nPrint Assumptions C15_here_nonvacuous.\n")
+        if rc2 != 0:
+            ctx.tie_broken.append("proof: Properties/C15_positive.v no longer checks on the extracted tables (strict the_validators / "
+                                  "good_pipe the_tables): a negative branch of C15 is active — " + " ".join(out2[-200:].split()))
+        elif out2.count("Closed under the global context") != 3:
+            ctx.tie_broken.append("axioms: Properties/C15_positive.v is not closed under the global context: " + out2[-200:])
+        else:
+            ctx.notes.append("Properties/C15_positive.v: C15_tables_positive, C15_here, C15_here_nonvacuous closed under the global context")
     t = ctx.tables or {}
     for name, good in (("report_libcst_apply", "LibcstGuardChangesDiff"),):
         if t.get(name) not in (None, good):
@@ -1103,6 +1197,7 @@ def run(ctx: core.Ctx):
     run_validators(ctx)
     run_serialisation(ctx)
     run_xml(ctx)
+    run_regex(ctx)
     run_synthetic(ctx)
     run_e2e(ctx)
 
